@@ -193,6 +193,7 @@ func init() {
 			{ID: "C06.R12", Floor: 6, Doc: "stream ids are claimed and released by compare-and-swap against a freshly loaded word, so none is lost or handed out twice (=C08.R2)", Run: c08r2},
 			{ID: "C06.R13", Floor: 2, Doc: "a field that is taken over into a local and cleared is cleared in the critical section that captured it (what is registered in between would be dropped and never answered)", Run: ruleCaptureClear},
 			{ID: "C06.R17", Floor: 8, Doc: "no goroutine waits on a channel while it certainly holds a mutex (=C17.R20): the closing path and the receiver need the same mutexes", Run: c17BlockingUnderLock},
+			{ID: "C06.R18", Floor: 2, Doc: "stop and wake-up signals cannot be lost: a non-blocking send goes into a buffered channel (=C17.R9); a refresh request dropped this way leaves its caller waiting for ever", Run: c17r9},
 			{ID: "C06.R16", Floor: 100, Doc: "every mutex a function locks is unlocked again on every path to every exit (=C17.R15): a lock kept across a return makes closing hang", Run: func(p *Program, r *Report) {
 				if lockBalance(p, r, func(fi *FuncInfo) bool { return true }) == 0 {
 					r.Unresolved("no function locks a mutex")
